@@ -19,7 +19,7 @@ table = "| seed | change | caught by | first problem reported |\n|---|---|---|--
 p = '/verif/DESIGN.md'
 s = open(p).read()
 if '<!-- SEEDS-BEGIN -->' in s:
-    s = re.sub(r'<!-- SEEDS-BEGIN -->.*?<!-- SEEDS-END -->', '<!-- SEEDS-BEGIN -->\n' + table + '<!-- SEEDS-END -->', s, flags=re.S)
+    s = re.sub(r'<!-- SEEDS-BEGIN -->.*?<!-- SEEDS-END -->', lambda _m: '<!-- SEEDS-BEGIN -->\n' + table + '<!-- SEEDS-END -->', s, flags=re.S)
 else:
     i = s.index('| seed | change | caught by | how |')
     s = s[:i] + '<!-- SEEDS-BEGIN -->\n' + table + '<!-- SEEDS-END -->\n'
@@ -39,7 +39,7 @@ for f in sorted(glob.glob('/verif/benign/*/meta.json'), key=lambda x: int(x.spli
     rows.append(f"| {bid} | {', '.join(m.get('files_touched', []))} | {summ} | {fmt(first) if first else fmt(cur)} | {fmt(cur) if first else ''} |")
 table = ("| id | files | change | first evaluation | after the translator was corrected |\n|---|---|---|---|---|\n" + "\n".join(rows) + "\n")
 s = open(p).read()
-s = re.sub(r'<!-- BENIGN-BEGIN -->.*?<!-- BENIGN-END -->', '<!-- BENIGN-BEGIN -->\n' + table + '<!-- BENIGN-END -->', s, flags=re.S)
+s = re.sub(r'<!-- BENIGN-BEGIN -->.*?<!-- BENIGN-END -->', lambda _m: '<!-- BENIGN-BEGIN -->\n' + table + '<!-- BENIGN-END -->', s, flags=re.S)
 open(p, 'w').write(s)
 print(len(rows), "benign refactorings")
 
